@@ -11,12 +11,12 @@ import (
 	appsv1 "k8s.io/api/apps/v1"
 	corev1 "k8s.io/api/core/v1"
 	netv1 "k8s.io/api/networking/v1"
-	gatewayv1beta1 "sigs.k8s.io/gateway-api/apis/v1beta1"
 	apierrors "k8s.io/apimachinery/pkg/api/errors"
 	metav1 "k8s.io/apimachinery/pkg/apis/meta/v1"
 	"k8s.io/apimachinery/pkg/apis/meta/v1/unstructured"
 	"k8s.io/apimachinery/pkg/util/intstr"
 	"sigs.k8s.io/controller-runtime/pkg/client"
+	gatewayv1beta1 "sigs.k8s.io/gateway-api/apis/v1beta1"
 	"sigs.k8s.io/yaml"
 
 	"github.com/openkruise/rollouts/api/v1beta1"
@@ -32,20 +32,20 @@ type Scenario struct {
 	RolloutID bool       `json:"rolloutID"`
 	// RolloutIDAnno: the id is also mirrored into the annotation of the same name (the admission webhook reads the
 	// annotation, the controllers read the label; the API documents the label)
-	RolloutIDAnno bool `json:"rolloutIDAnno,omitempty"`
-	Traffic   string     `json:"traffic"` // none | ingress-nginx | ...
-	GraceSec  int        `json:"graceSec"`
-	FailThr   string     `json:"failureThreshold,omitempty"`
-	MaxSurge  string     `json:"maxSurge,omitempty"`
-	MaxUnav   string     `json:"maxUnavailable,omitempty"`
-	Events    []UserEvent `json:"events"`
-	AutoApprove bool     `json:"autoApprove"`
-	V2Fails   bool       `json:"v2Fails"`
-	IstioDR   bool       `json:"istioDR,omitempty"`
-	ForeignBackend bool  `json:"foreignBackend,omitempty"` // gateway: the stable rule also carries a backend the rollout does not own
-	HeaderRegex bool     `json:"headerRegex,omitempty"`
-	HashCompat bool      `json:"hashCompat"`
-	user       *User
+	RolloutIDAnno  bool        `json:"rolloutIDAnno,omitempty"`
+	Traffic        string      `json:"traffic"` // none | ingress-nginx | ...
+	GraceSec       int         `json:"graceSec"`
+	FailThr        string      `json:"failureThreshold,omitempty"`
+	MaxSurge       string      `json:"maxSurge,omitempty"`
+	MaxUnav        string      `json:"maxUnavailable,omitempty"`
+	Events         []UserEvent `json:"events"`
+	AutoApprove    bool        `json:"autoApprove"`
+	V2Fails        bool        `json:"v2Fails"`
+	IstioDR        bool        `json:"istioDR,omitempty"`
+	ForeignBackend bool        `json:"foreignBackend,omitempty"` // gateway: the stable rule also carries a backend the rollout does not own
+	HeaderRegex    bool        `json:"headerRegex,omitempty"`
+	HashCompat     bool        `json:"hashCompat"`
+	user           *User
 }
 
 type StepSpec struct {
@@ -121,7 +121,7 @@ func loadWebhookConfig() *admregv1.MutatingWebhookConfiguration {
 func (sc *Scenario) podTemplate(version string) corev1.PodTemplateSpec {
 	return corev1.PodTemplateSpec{
 		ObjectMeta: metav1.ObjectMeta{Labels: map[string]string{"app": sc.Name}},
-		Spec: corev1.PodSpec{Containers: []corev1.Container{{Name: "main", Image: "app:" + version}}},
+		Spec:       corev1.PodSpec{Containers: []corev1.Container{{Name: "main", Image: "app:" + version}}},
 	}
 }
 
